@@ -1343,9 +1343,20 @@ class C01(Prop):
               "origin labels / subtree hash / alive child vertices of every frontier hyperedge, pairwise different hyperedges at the node whose child edges are cut, "
               "fresh names and hash-table extension; every merge of combine_subtrees satisfies the hypotheses of merge_equal_subtrees_sound and every cut satisfies "
               "cut_pre, so C01_cut_step_sound applies at every edge.  Not covered universally: two terms with the SAME string and different coefficients (re-hash "
-              "branch; next clause) and that the model returns Some (it returns None exactly where the implementation raises or leaves a dangling hyperedge; checked "
-              "per instance by the tie).  Terms with prefactor 0 are included: code (repo commit 2e422fd) and model drop them before the compound diagram is built and "
+              "branch; next clause); that the model returns Some is the NEXT clause (C01_bipartite_accepts).  Terms with prefactor 0 are included: code (repo commit 2e422fd) and model drop them before the compound diagram is built and "
               "fall back to the BASE diagram of the full list when none remains; ham_denote is unchanged up to peq (ham_denote_live)"),
+        # [ext-C01A]
+        ("F", "pipeline model, ACCEPTANCE of the driver: for every tree with distinct identifiers and every NON-EMPTY term list with pairwise distinct operator "
+              "strings (any coefficients, zero prefactors included; no further side condition: a padded term labels every node) from_hamiltonian_bipartite t H = "
+              "Some d (C01_bipartite_accepts), hence accepted AND exact (C01_bipartite_total); the empty term list is rejected (C01_bipartite_empty_rejected).  None of "
+              "the model's failure branches is reachable: _generate_non_redundant_V_dict never re-hashes (no empty bucket for _remove_reduntant_v_hyperedges), both "
+              "sides of every cut edge carry a hyperedge (BipartiteGraph asserts), minimum_vertex_cover neither runs out of fuel nor fails its size assert "
+              "(C14_mvc_main), and after _reconnect_hyperedges every hyperedge of the two nodes has a vertex on the cut edge (Gamma has no empty row / column: "
+              "all coefficients are != 0 once prefactor-0 terms are dropped, every child hyperedge hangs on a vertex used by a parent hyperedge, the cover touches "
+              "every edge).  Proved (SD/PipelineAccept.v) by extending the invariant of the BFS run by the part XF per frontier node, preserved by every merge and "
+              "every cut; one cut under the invariant: C01_cut_step_accepts.  Not covered universally: acceptance for term lists that repeat an operator string "
+              "(there the re-hash branch can leave an empty bucket: known finding C12-sge-symbolic-crash for SGE; BIPARTITE per instance by the tie)"),
+        # [/ext-C01A]
         ("F", "pipeline model, checked form: sd_denote is preserved by a combine_subtrees call whose merges satisfy the decidable form of the hypotheses of "
               "merge_equal_subtrees_sound (C01_combine_step_sound), and from_hamiltonian_bipartite t H = Some d with pipeline_ok t H = true (the step preconditions "
               "evaluated before every step of the run) implies sd_denote d = ham_denote H for every tree and term list "
